@@ -4,6 +4,7 @@ package c08
 import (
 	"bytes"
 	"encoding/binary"
+	"errors"
 	"fmt"
 	"strings"
 	"testing"
@@ -21,13 +22,14 @@ import (
 	"verifharness/adapt"
 	"verifharness/gen"
 	"verifharness/hx"
+	"verifharness/ref/authvar"
 	"verifharness/ref/esl"
 	"verifharness/ref/guid"
 )
 
 // Mut is one mutation of a well-formed stream.
 type Mut struct {
-	Kind  string // truncate | field | type | trailing | insert | grow_with_junk | size_lie | none
+	Kind  string // truncate | field | type | trailing | insert | grow_with_junk | size_lie | prepend | none
 	List  int    // which list (mod number of lists)
 	Field int    // 0 ListSize, 1 HeaderSize, 2 SignatureSize
 	Value uint32 // new field value (kind field)
@@ -100,6 +102,15 @@ func genMut(t *rapid.T, stream []byte, lists []esl.List) Mut {
 		m.Kind = "trailing"
 		m.Tail = gen.FillBytes(t, rapid.IntRange(1, 60).Draw(t, "tail"))
 	default:
+		if rapid.IntRange(0, 3).Draw(t, "prepend") == 0 {
+			// a signed update as it is handed to the firmware: an authentication descriptor in front of the lists.
+			// A descriptor is not a signature list; a decoder of databases has to refuse the input.
+			var ts [16]byte
+			copy(ts[:], gen.FillBytes(t, 16))
+			m.Kind = "prepend"
+			m.Tail = authvar.EncodeAuth2(ts, 0x0200, 0x0ef1, authvar.PKCS7GUID, gen.SizedBytes(300, 0, 1).Draw(t, "certdata"))
+			return m
+		}
 		if rapid.Bool().Draw(t, "grow") {
 			// the list claims r more bytes and r junk bytes are really there (before the next list)
 			m.Kind = "grow_with_junk"
@@ -186,6 +197,11 @@ func apply(stream []byte, muts []Mut) []byte {
 					}
 				}
 			}
+		case "prepend":
+			out = append(append([]byte{}, m.Tail...), out...)
+			for j := range offs {
+				offs[j] += len(m.Tail)
+			}
 		case "trailing":
 			out = append(out, m.Tail...)
 		case "grow_with_junk":
@@ -251,6 +267,49 @@ func checkInput(in []byte, class string) error {
 	if err := esl.EqualLists(got, want); err != nil {
 		return fmt.Errorf("decoded database differs from the reference decoding (library vs reference): %v; input %x", err, in)
 	}
+	return nil
+}
+
+// failingReader delivers data[:at] and then fails with an error that is not io.EOF (a device error, a broken pipe).
+type failingReader struct {
+	data []byte
+	pos  int
+	at   int
+}
+
+func (f *failingReader) Read(p []byte) (int, error) {
+	if f.pos >= f.at {
+		return 0, errors.New("verif: injected read error (not EOF)")
+	}
+	n := copy(p, f.data[f.pos:f.at])
+	f.pos += n
+	return n, nil
+}
+
+// checkReaderFaults: the input arrives through a reader that fails at offset k, for every k where a list starts or
+// ends and a few in between. Whatever the reader had delivered so far, the decoder did not see the end of the input:
+// it must report an error, never a database made of the lists that happened to be complete.
+func checkReaderFaults(in []byte) error {
+	lists, err := esl.Split(in)
+	if err != nil || len(in) > 4096 {
+		return nil
+	}
+	offs := append(listOffsets(lists), len(in))
+	var ks []int
+	for _, o := range offs {
+		ks = append(ks, o, o+1, o+16, o+28)
+	}
+	for _, k := range ks {
+		if k < 0 || k > len(in) {
+			continue
+		}
+		hx.Eval()
+		db, derr := signature.ReadSignatureDatabase(&failingReader{data: in, at: k})
+		if derr == nil {
+			return fmt.Errorf("ReadSignatureDatabase returned %d lists and no error although its reader failed (not with EOF) at offset %d of %d; input %x", len(db), k, len(in), in)
+		}
+	}
+	hx.Class("reader_fails_at_list_boundaries")
 	return nil
 }
 
@@ -348,6 +407,9 @@ func checkCase(c Case) error {
 		return err
 	}
 	if err := checkRoutes(in, class); err != nil {
+		return err
+	}
+	if err := checkReaderFaults(in); err != nil {
 		return err
 	}
 	if c.AllCuts && len(in) <= 1500 {
